@@ -334,6 +334,40 @@ def _auto_discharge(cg: CG, s: RaiseSite) -> Optional[str]:
         r = _string_escape_shape(s)
         if r:
             return r  # may carry the UNSAFE marker: the caller reports it
+        # a private helper indexing its own parameter: every call site establishes non-emptiness of the argument
+        if isinstance(idx, (ast.Constant, ast.UnaryOp)) and isinstance(n.value, ast.Name) and s.unit.fn.cls is None and fn.name.startswith("_"):
+            from .guards import _const_int as _ci
+
+            params = [a.arg for a in fn.args.args]
+            if _ci(idx) in (0, -1) and n.value.id in params:
+                pi = params.index(n.value.id)
+                sites_ = []
+                for mod_ in cg.model.mods.values():
+                    for c_ in ast.walk(mod_.tree):
+                        if isinstance(c_, ast.Call) and isinstance(c_.func, ast.Name) and c_.func.id == fn.name and mod_.rel == s.unit.fn.rel:
+                            sites_.append(c_)
+                if sites_:
+                    all_ok = True
+                    for c_ in sites_:
+                        if pi >= len(c_.args):
+                            all_ok = False
+                            break
+                        arg = c_.args[pi]
+                        enc = enclosing(c_, ast.FunctionDef)
+                        fs = list(facts_at(c_, enc)) if enc is not None else []
+                        # filters of the comprehension the call is the element of
+                        par_ = parent(c_)
+                        while par_ is not None and not isinstance(par_, (ast.GeneratorExp, ast.ListComp, ast.SetComp, ast.FunctionDef)):
+                            par_ = parent(par_)
+                        if isinstance(par_, (ast.GeneratorExp, ast.ListComp, ast.SetComp)):
+                            for g_ in par_.generators:
+                                for if_ in g_.ifs:
+                                    fs.append((if_, True))
+                        if not known_nonempty(arg, fs):
+                            all_ok = False
+                            break
+                    if all_ok:
+                        return f"every call of {fn.name} passes an argument tested non-empty at the call site ({len(sites_)} site(s))"
         # `x or default`-style:  (x[0] if x else ...) handled by facts; os.path.splitext(...)[0] is a 2-tuple
         if isinstance(n.value, ast.Call) and src_of(n.value.func) in ("os.path.splitext", "os.path.split") and isinstance(idx, ast.Constant) and idx.value in (0, 1):
             return "os.path.splitext/split return a 2-tuple"
